@@ -194,7 +194,10 @@ def run(pid, tier, seed, replay=None):
                 ck.violation(dict(sig_base, **{"class": "hang"}), {"what": "walk_descents did not return within 60 s", "plan": plan[r["run"]]})
             elif st == "crash":
                 ck.violation(dict(sig_base, **{"class": "crash"}), {"what": "driver died", "stderr": r.get("stderr"), "plan": plan[r["run"]]})
-            elif st == "done":
+            if r.get("race"):
+                ck.violation(dict(sig_base, **{"class": "unprotected-state-write"}),
+                             {"what": "data race: " + r["race"] + " (every other access to that field is made under the mutex)", "plan": plan[r["run"]]})
+            if st == "done":
                 results[(r["na"], r["firstred"])].add(json.dumps(r["result"], sort_keys=True))
                 if r.get("drift") and r["policy"] == "sched":
                     ck.drift("TLC path not followed by the real code: " + r.get("driftwhat", ""))
